@@ -47,7 +47,12 @@ func c16Hw(r *rand.Rand) []byte {
 }
 
 func emitTemplate(c *caseWriter, r *rand.Rand, label string, kind int, hw []byte, leased, server uint32) {
-	iface := &net.Interface{Index: 1, Name: "c16if", HardwareAddr: net.HardwareAddr(hw), MTU: 1500}
+	// the MTU of the interface is of no concern to the messages (option 57 is a constant of the client): vary it
+	mtu := 1500
+	if r.Intn(2) == 0 {
+		mtu = []int{0, 68, 296, 575, 576, 1280, 1499, 9000, 65520, 65535, 65536, 65536 + 300, 65536 + 1500, 1 << 31, -1}[r.Intn(15)]
+	}
+	iface := &net.Interface{Index: 1, Name: "c16if", HardwareAddr: net.HardwareAddr(hw), MTU: mtu}
 	lip, sip := ipForm(leased, r.Intn(2) == 0), ipForm(server, r.Intn(2) == 0)
 	var f func() ([]byte, net.IP, net.IP)
 	var xid uint32
@@ -70,6 +75,9 @@ func emitTemplate(c *caseWriter, r *rand.Rand, label string, kind int, hw []byte
 		}
 	})
 	kl := reqKindNames[kind] + "/" + label
+	if mtu != 1500 {
+		kl += "/mtu-varied"
+	}
 	if panicked {
 		c.add(1601, kl, true, args(L{uint64(kind), 0, 0, uint64(leased), uint64(server)}, B(hw)), resPanic())
 		return
